@@ -164,8 +164,10 @@ class RoundRobin(TMGRSchedulingComponent):
 
                     tasks_ok.append(task)
 
-                except Exception:
+                except Exception as e:
                     self._log.exception('task schedule preparation failed')
+                    task['exception']        = repr(e)
+                    task['exception_detail'] = '\n'.join(ru.get_exception_trace())
                     tasks_fail.append(task)
 
             # make sure that all scheduled tasks have sandboxes known
